@@ -173,10 +173,20 @@ def r1_number_arms(rep, ctx):
             continue
         for k in (1, 2):
             arg = c.args[k - 1]
-            if not isinstance(arg, ast.Name):
-                continue
+            if isinstance(arg, ast.Name):
+                arg_origins = ares.origins(arg)
+            elif isinstance(arg, ast.Attribute) and isinstance(arg.value, ast.Name):
+                # a field of a local record (`operands.q1`): the sites where the record was built
+                arg_origins = []
+                for ost, ot in ares.origins(arg.value):
+                    pt = ares._record_projection(ot, arg.attr)
+                    if pt is None:
+                        raise AnalysisError("Array._DoOperation: `%s` is not a field of a plain record built in this function: where the quantity of operand %d comes from cannot be read off" % (ast.unparse(arg), k))
+                    arg_origins.append((ost, pt))
+            else:
+                raise AnalysisError("Array._DoOperation: the quantity argument `%s` of the operation is neither a local nor a field of a local record" % ast.unparse(arg))
             pos_edges = {(nid, b_, l_) for nid in acfg.nodes("test") if operand_test(acfg.ast[nid], k) for (b_, l_) in acfg.succ[nid] if l_ == "T"}
-            for ost, ot in ares.origins(arg):
+            for ost, ot in arg_origins:
                 if ost is None or not any(x[0] == "call" and x[1][0] == "attr" and x[1][2] == "CreateEmpty" for x in alternatives(ot)):
                     continue
                 if ("%d" % k) in seen_sides:
